@@ -14,7 +14,7 @@ EXPLANATION = (
     "every exit of the function, normal or exceptional. R15b: the setter used for the restore is idempotent on its own output (no ceil on a raw quotient; shared with C03). "
     "R15c (effect summaries): calibrate, optimize, reconcile and their Project wrappers do not definitely mutate the caller's parset / progset / instructions; the objects "
     "handed to the mutating helpers are rooted at copies. R15d: the objective filters populations by *name* - no membership or equality test compares an instance of a repo "
-    "class without __eq__ against a collection of names. 'No worse than the start' and bound satisfaction of returned values belong to the external optimiser and are not decided."
+    "class without __eq__ against a collection of names. R15e: the hard bounds handed to the total-spend rescaling are those of the same year and program: every position lookup `np.where(<years> OP t)[0][0]` in get_hard_constraint is an equality match and the adjustable whose bounds are used is the one at that position. 'No worse than the start' and bound satisfaction of returned values belong to the external optimiser and are not decided."
 )
 
 
@@ -25,6 +25,7 @@ def run(ctx):
     ctx.each(r15b, ctx, repo)
     ctx.each(r15c, ctx, repo, T, cg, E)
     ctx.each(r15d, ctx, repo, T)
+    ctx.each(r15e, ctx, repo)
 
 
 def _chain_txt(e):
@@ -229,3 +230,38 @@ def thorough(ctx):
     T, cg, E = engines(ctx.repo)
     sweeps.effect_overview(ctx, ctx.repo, E)
     sweeps.discretisation_sweep(ctx, ctx.repo, "R15b")
+
+
+def index_lookups(fi):
+    """(stmt, compare node) for  np.where(<cmp>)[0][0]  and friends"""
+    out = []
+    for n in own_nodes(fi.node):
+        if isinstance(n, ast.Subscript) and isinstance(n.value, ast.Subscript) and isinstance(n.value.value, ast.Call) and ast.unparse(n.value.value.func) in ("np.where", "np.nonzero", "np.flatnonzero", "np.argwhere") and n.value.value.args and isinstance(n.value.value.args[0], ast.Compare):
+            if astq.is_const(n.slice, 0) and astq.is_const(n.value.slice, 0):
+                out.append((enclosing_stmt(n), n.value.value.args[0]))
+    return out
+
+
+def r15e(ctx, repo):
+    ctx.rule("R15e", "per-year bounds: position lookups in TotalSpendConstraint.get_hard_constraint are equality matches on the year, and the hard bounds of a program in year t come from the adjustable at that position")
+    fi = repo.func("optimization", "TotalSpendConstraint.get_hard_constraint")
+    looks = index_lookups(fi)
+    ctx.require(len(looks) >= 2, "R15e: fewer year-position lookups (%d) in get_hard_constraint than confirmed (2)" % len(looks))
+    for st, cmp_ in looks:
+        ok = len(cmp_.ops) == 1 and isinstance(cmp_.ops[0], ast.Eq)
+        ctx.check(ok, "R15e", fi, st, "`%s` is an exact match" % ast.unparse(cmp_), "`%s` takes the first position where `%s` holds, which need not be the position of year t: the bounds (or total) of another year are applied, so an optimised allocation can leave the bounds the caller gave for that year" % (norm(st)[:60], ast.unparse(cmp_)))
+    adj = [s_ for s_ in own_nodes(fi.node) if isinstance(s_, ast.Assign) and isinstance(s_.targets[0], ast.Name) and isinstance(s_.value, ast.Subscript) and ast.unparse(s_.value.value).endswith(".adjustables")]
+    ctx.require(bool(adj), "R15e: selection of the adjustable by position not found in get_hard_constraint")
+    for s_ in adj:
+        ctx.check(isinstance(s_.value.slice, ast.Name) and s_.value.slice.id == "idx", "R15e", fi, s_, "adjustable selected by the year's position", "`%s`: the adjustable whose bounds are used is not selected by the position of year t" % norm(s_)[:60])
+    same = [cmp_ for st, cmp_ in looks if ast.unparse(cmp_.left).endswith("adjustment.t") or ast.unparse(cmp_.comparators[0]).endswith("adjustment.t")]
+    ctx.check(bool(same), "R15e", fi, fi.node, "the position is looked up in the adjustment's own year list", "the year position is not looked up in the adjustment's own list of years", stmt_text="lookup-in-adjustment.t")
+    others = 0
+    for f in repo.all_functions():
+        if f.fq == fi.fq:
+            continue
+        for st, cmp_ in index_lookups(f):
+            others += 1
+            if not (len(cmp_.ops) == 1 and isinstance(cmp_.ops[0], ast.Eq)):
+                ctx.note("R15e", "%s:%d %s looks a position up with `%s`" % (f.module.relpath, st.lineno, f.qualname, ast.unparse(cmp_)))
+    ctx.extra["exact_position_lookups_elsewhere"] = others
